@@ -3,8 +3,12 @@
 copies /tmp/seeded-out/<Cnn>/<n>/{patch.diff,demo.diff,notes.md,confirm.log} to /verif/seeded/<Cnn>-<n>/ and writes meta.json"""
 import sys, os, shutil, json, subprocess
 pid, n, caught, needs, ran = sys.argv[1:6]
-src = f"/tmp/seeded-out/{pid}/{n}"
-dst = f"/verif/seeded/{pid}-{n}"
+# optional: source batch directory and worktree base (second batch: /tmp/seeded2-out, /tmp/wt2), number to keep it under
+out_base = os.environ.get("OUT_BASE", "/tmp/seeded-out")
+wt_base = os.environ.get("WT_BASE", "/tmp/wt")
+keep_n = os.environ.get("KEEP_AS", n)
+src = f"{out_base}/{pid}/{n}"
+dst = f"/verif/seeded/{pid}-{keep_n}"
 os.makedirs(dst, exist_ok=True)
 for f in ["patch.diff", "patch.rebased.diff", "demo.diff", "notes.md", "confirm.log"]:
     if os.path.exists(os.path.join(src, f)):
@@ -13,10 +17,10 @@ confirm = ""
 if os.path.exists(os.path.join(src, "confirm.log")):
     lines = [l for l in open(os.path.join(src, "confirm.log")) if l.startswith("CONFIRMED") or l.startswith("NOT-CONFIRMED")]
     confirm = lines[-1].strip() if lines else ""
-base = subprocess.run(["git", "-C", f"/tmp/wt-{pid}", "rev-parse", "HEAD"], capture_output=True, text=True).stdout.strip()
+base = subprocess.run(["git", "-C", f"{wt_base}-{pid}", "rev-parse", "HEAD"], capture_output=True, text=True).stdout.strip()
 meta = {
     "property": pid,
-    "seed": f"{pid}-{n}",
+    "seed": f"{pid}-{keep_n}",
     "origin": "independent sub-agent given only the property text and a scratch worktree",
     "base_commit": base,
     "needs_to_manifest": needs,
